@@ -10,7 +10,7 @@ def automaton(features=()):
     key = tuple(features)
     if key not in _cached:
         from . import facts
-        p = os.path.join(facts._cache_dir(), "automaton-%s.pkl" % ("+".join(features) or "default"))
+        p = os.path.join(facts._cache_dir(), "automaton-%s%s.pkl" % ("+".join(features) or "default", "+release" if facts.profile() == "release" else ""))
         if os.path.exists(p):
             with open(p, "rb") as fh:
                 _cached[key] = pickle.load(fh)
